@@ -1,15 +1,72 @@
 (** Executable entry points of the reactive model for the correspondence checks of C01, C09
-    and C02: decode a case [(prog ops)], run [Effects.run_fixed], encode the event trace. *)
+    and C02: decode a case [(prog ops)], run [Effects.run_fixed], encode the event trace.
+
+    Two things of the case language are resolved here, before the model runs:
+
+    - the owner tree: an effect node may carry a fifth field, the index of the effect under
+      whose owner its own owner was created ([-1] or absent: under the root);
+
+    - selectors (computed/selector.rs).  A [Selector] occupies consecutive nodes of the case:
+      a value cell [V] ([Selector.v]), a cell [P] for the value the internal RenderEffect
+      returned last time (its [prev] argument), one trigger signal [T_k] per key [k] (the
+      [ArcRwSignal<bool>] the key map holds; a key that nobody asked for yet has no
+      subscribers, so whether its entry exists already cannot be observed), and the node of the
+      selector itself, which is its internal effect:
+
+          next = source();  v = Some(next);
+          if prev != Some(next) { for (key, signal) in subs {
+              if f(key, next) || (prev.is_some() && f(key, prev)) { signal.update(|n| *n = true) } } }
+          next
+
+      becomes an [ERender] effect whose body writes [V], then the affected triggers (in the
+      order of the case; the real order is the FxHashMap's, see [Effects.canon_wakes]), then [P].
+      [selector.selected(k)] = [read.track()] on [T_k], then [f(k, v)].  The comparators are
+      equality, "same bucket of ten" and "value >= key".  Reads of the cells [V] / [P] are
+      bookkeeping of the transformation (locals of the real closure): they are not part of
+      the observation. *)
 From Coq Require Import List ZArith Bool Arith.
 From LV Require Import Base.Sexp Reactive.Graph Reactive.Effects.
 Import ListNotations.
 Open Scope Z_scope.
 
-Fixpoint dec_expr (f : nat) (s : sexp) : expr :=
+(* ------------------------------------------------------------------ selectors as expressions *)
+Definition x_or (a b : expr) : expr := Ite a (Const 1) b.
+Definition x_neq (a b : expr) : expr := Ite (Lt a b) (Const 1) (Lt b a).
+(* f(key, x): [x] is an expression without side effects; it may be evaluated twice *)
+Definition x_sel (cmp : Z) (key : Z) (x : expr) : expr :=
+  match cmp with
+  | 2 => let lo := 10 * (key / 10) in Ite (Lt x (Const lo)) (Const 0) (Lt x (Const (lo + 10)))
+  | 3 => Ite (Lt x (Const key)) (Const 0) (Const 1)
+  | _ => Ite (Lt x (Const key)) (Const 0) (Ite (Lt (Const key) x) (Const 0) (Const 1))
+  end.
+Definition x_sum (l : list expr) : expr := fold_right Add (Const 0) l.
+
+(* the node of a selector: (4 cmp src V P (T ...)); the node of a trigger: (0 6 key) *)
+Definition key_of (pg : sexp) (t : nat) : Z := as_Z (nth_s 2 (nth_s t pg)).
+
+Definition sel_body (pg : sexp) (nd : sexp) (src : expr) : expr :=
+  let cmp := as_Z (nth_s 1 nd) in
+  let v := as_nat (nth_s 3 nd) in
+  let pv := as_nat (nth_s 4 nd) in
+  let ts := as_nats (nth_s 5 nd) in
+  let notify t :=
+    let k := key_of pg t in
+    Ite (x_or (x_sel cmp k (RdU v)) (x_sel cmp k (RdU pv))) (Wr t (Const 0)) (Const 0) in
+  Add (Add (Wr v src)
+           (Ite (x_neq (RdU pv) (RdU v)) (x_sum (map notify ts)) (Const 0)))
+      (Ite (Wr pv (RdU v)) (Const 0) (Const 0)).
+
+(* selector.selected(key of the j-th trigger of selector e): (8 e j) *)
+Definition sel_read (pg : sexp) (e j : nat) : expr :=
+  let nd := nth_s e pg in
+  let t := nth j (as_nats (nth_s 5 nd)) O in
+  Add (Rd t) (x_sel (as_Z (nth_s 1 nd)) (key_of pg t) (RdU (as_nat (nth_s 3 nd)))).
+
+Fixpoint dec_expr (pg : sexp) (f : nat) (s : sexp) : expr :=
   match f with
   | O => Const 0
   | S f =>
-      let a i := dec_expr f (nth_s i s) in
+      let a i := dec_expr pg f (nth_s i s) in
       match as_Z (nth_s 0 s) with
       | 0 => Const (as_Z (nth_s 1 s))
       | 1 => Rd (as_nat (nth_s 1 s))
@@ -19,23 +76,37 @@ Fixpoint dec_expr (f : nat) (s : sexp) : expr :=
       | 5 => Lt (a 1%nat) (a 2%nat)
       | 6 => Ite (a 1%nat) (a 2%nat) (a 3%nat)
       | 7 => Wr (as_nat (nth_s 1 s)) (a 2%nat)
+      | 8 => sel_read pg (as_nat (nth_s 1 s)) (as_nat (nth_s 2 s))
       | _ => Const 0
       end
   end.
 Definition EXPR_DEPTH : nat := 40.
 
-Definition dec_decl (s : sexp) : decl :=
+Definition dec_decl (pg : sexp) (s : sexp) : decl :=
   match as_Z (nth_s 0 s) with
   | 0 => let fl := as_Z (nth_s 1 s) in
-         DSig (Z.eqb fl 1 || Z.eqb fl 3 || Z.eqb fl 4) (as_Z (nth_s 2 s))
+         if Z.eqb fl 5 || Z.eqb fl 6 then DSig false 0       (* cell / trigger of a selector *)
+         else DSig (Z.eqb fl 1 || Z.eqb fl 3 || Z.eqb fl 4) (as_Z (nth_s 2 s))
   | 1 => DMemo (match as_Z (nth_s 1 s) with 0 => CNe | 2 => CPar | _ => CAlways end)
-               (dec_expr EXPR_DEPTH (nth_s 3 s))
-  | 2 => DDer (dec_expr EXPR_DEPTH (nth_s 2 s))
+               (dec_expr pg EXPR_DEPTH (nth_s 3 s))
+  | 2 => DDer (dec_expr pg EXPR_DEPTH (nth_s 2 s))
+  | 4 => DEff ERender (sel_body pg s (dec_expr pg EXPR_DEPTH (nth_s 2 s))) (Const 0)
   | _ => let k := match as_Z (nth_s 1 s) with
                   | 1 => ERender | 2 => EWatch false | 3 => EWatch true | _ => EEffect
                   end in
-         DEff k (dec_expr EXPR_DEPTH (nth_s 2 s)) (dec_expr EXPR_DEPTH (nth_s 3 s))
+         DEff k (dec_expr pg EXPR_DEPTH (nth_s 2 s)) (dec_expr pg EXPR_DEPTH (nth_s 3 s))
   end.
+
+(* the owner tree: fifth field of an effect node *)
+Definition dec_par (pg : sexp) (e : nat) : option nat :=
+  let nd := nth_s e pg in
+  match as_Z (nth_s 0 nd), nth_s 4 nd with
+  | 3, Num z => if Z.ltb z 0 then None else Some (Z.to_nat z)
+  | _, _ => None
+  end.
+Definition dec_selw (pg : sexp) (e : nat) : bool := Z.eqb (as_Z (nth_s 0 (nth_s e pg))) 4.
+Definition is_cell (pg : sexp) (j : nat) : bool :=
+  let nd := nth_s j pg in Z.eqb (as_Z (nth_s 0 nd)) 0 && Z.eqb (as_Z (nth_s 1 nd)) 5.
 
 Definition dec_op (s : sexp) : op :=
   let a := as_nat (nth_s 1 s) in
@@ -67,10 +138,18 @@ Definition enc_event (e : event) : sexp :=
   | EvOp => Lst [Num 11]
   end.
 
+(* reads of a selector's cells are not observations *)
+Definition observable (pg : sexp) (e : event) : bool :=
+  match e with
+  | EvRead _ j _ _ => negb (is_cell pg j)
+  | _ => true
+  end.
+
 Definition run_trace (c : sexp) : prog * list event :=
-  let p := map dec_decl (as_list (nth_s 0 c)) in
+  let pg := nth_s 0 c in
+  let p := map (dec_decl pg) (as_list pg) in
   let ops := map dec_op (as_list (nth_s 1 c)) in
-  (p, rev (trace (run_fixed p ops))).
+  (p, filter (observable pg) (rev (trace (run_fixed p (dec_par pg) (dec_selw pg) ops)))).
 
 (* the three properties observe the same full event trace; their generators, oracles and
    theorems differ *)
